@@ -260,7 +260,7 @@ func (d *Driver) ctx(ms int) (context.Context, context.CancelFunc) {
 // api wraps one API call with ApiCall/ApiRet events and a watchdog.
 func (d *Driver) api(g, op, obj string, kv []any, f func() (error, []any)) error {
 	kv = append([]any{"g", g, "op", op, "obj", obj}, kv...)
-	d.rec.Log("ApiCall", kv...)
+	ci := d.rec.Log("ApiCall", kv...)
 	start := time.Now()
 	done := make(chan struct{})
 	go func() {
@@ -282,7 +282,7 @@ func (d *Driver) api(g, op, obj string, kv []any, f func() (error, []any)) error
 		err, res = f()
 	}()
 	close(done)
-	out := []any{"g", g, "op", op, "obj", obj, "err", ErrClass(err), "isISCP", isISCP(err), "durMs", int(time.Since(start) / time.Millisecond)}
+	out := []any{"g", g, "op", op, "obj", obj, "err", ErrClass(err), "isISCP", isISCP(err), "durMs", int(time.Since(start) / time.Millisecond), "ci", ci}
 	out = append(out, res...)
 	d.rec.Log("ApiRet", out...)
 	return err
@@ -748,6 +748,28 @@ func (d *Driver) exec(st *Step, g string) {
 		}
 	case "ack":
 		d.doAck(st)
+	case "ackUntilIdle":
+		// cooperative broker tail: acknowledge whatever is still unacknowledged until process st.Src is idle
+		ms := st.Ms
+		if ms == 0 {
+			ms = 4000
+		}
+		deadline := time.Now().Add(time.Duration(ms) * time.Millisecond)
+		p := d.proc(st.Src)
+		for time.Now().Before(deadline) {
+			if p.waitIdle(10 * time.Millisecond) {
+				break
+			}
+			if u := d.b.Up(d.sid(st.Obj)); u != nil {
+				if inc := d.b.CurInc(); inc != nil && inc.alive() {
+					if seqs := d.b.Unacked(u); len(seqs) > 0 {
+						if al := inc.AliasOf(u); al != 0 {
+							inc.ack(u, al, seqs, nil, nil)
+						}
+					}
+				}
+			}
+		}
 	case "sendChunk":
 		d.doSendChunk(st)
 	case "sendDownMeta":
@@ -909,7 +931,7 @@ func (d *Driver) doAck(st *Step) {
 	}
 	ms := st.Ms
 	if ms == 0 {
-		ms = 3000
+		ms = 400
 	}
 	deadline := time.Now().Add(time.Duration(ms) * time.Millisecond)
 	var seqs []uint32
@@ -918,16 +940,19 @@ func (d *Driver) doAck(st *Step) {
 		seqs = d.b.Unacked(u)
 	} else {
 		for _, s := range st.Seqs {
-			seqs = append(seqs, uint32(s))
 			for !d.b.Received(u, uint32(s)) && time.Now().Before(deadline) {
 				time.Sleep(2 * time.Millisecond)
 			}
 			if !d.b.Received(u, uint32(s)) {
-				d.rec.Log("AwaitTimeout", "what", "chunk", "seq", s)
+				// the real run took another (legal) path than the model behaviour the script came from:
+				// the broker never acknowledges a chunk it has not received
+				d.rec.Log("AckSkipped", "seq", s)
 				if st.Must {
 					d.inconclusive(fmt.Sprintf("ack: chunk %d never received", s))
 				}
+				continue
 			}
+			seqs = append(seqs, uint32(s))
 		}
 	}
 	inc := d.b.CurInc()
